@@ -152,10 +152,23 @@ class Rig:
             exc = self.guarded(lambda: None)
             self.log("run", 0, 0, exc)
 
+    def abort_pending(self, d):
+        """the application gives up the youngest request still queued for d (IOCB.abort)"""
+        for k in range(len(self.iocbs) - 1, -1, -1):
+            io = self.iocbs[k]
+            sq = self.c.app.queue_by_address.get(Address(d))
+            if io.ioState == 1 and io.args[0].pduDestination == Address(d) and sq is not None and sq.active_iocb is not None:
+                exc = self.guarded(io.abort, RuntimeError("given up by the application"), drain=False)
+                self.log("abortp", k + 1, self.dests.index(d) + 1, exc)
+                self.drain()
+                return
+
     def request(self, d, kind="c"):
         k = len(self.iocbs)
         if kind == "d":
             return self.direct(d)
+        if kind == "a":
+            return self.abort_pending(d)
         if kind == "u":
             req, asked = WhoIsRequest(destination=Address(d)), None
         else:
@@ -176,7 +189,7 @@ class Rig:
     def run(self, plan, faults, rng=None, limit=4000):
         """plan: list of (time_ms, dest[, kind]) requests -- kind "c" confirmed through an IOCB (default), "u" unconfirmed
         through an IOCB, "d" unconfirmed without one; faults: {frame number: 'drop'|'dup'|'delay'}"""
-        plan = sorted(tuple(p) for p in plan)
+        plan = sorted((tuple(p) for p in plan), key=lambda p: p[0])       # (stable: entries of one instant keep their order)
         faults = dict(faults)
         for _ in range(limit):
             if plan and plan[0][0] <= vt.now * 1000:
@@ -244,7 +257,7 @@ Failing(e) ==
     (IF PendingAreQueued' THEN {} ELSE {"NoResidue"}) \\cup
     (IF A_Monotone THEN {} ELSE {"AtMostOneOutcome"}) \\cup
     \\* handing something else down (with or without an IOCB) completes no confirmed request that is in progress
-    (IF e.op \\in {"request", "direct"} /\\ ~(\\A k \\in K : (~unc[k] /\\ st[k] \\in {"pending", "active"}) =>
+    (IF e.op \\in {"request", "direct", "abortp"} /\\ ~(\\A k \\in K : (~unc[k] /\\ st[k] \\in {"pending", "active"} /\\ ~(e.op = "abortp" /\\ k = e.k)) =>
                                                    (st'[k] = st[k] \\/ (st[k] = "pending" /\\ st'[k] = "active")))
         THEN {"OutcomeOnlyFromReply"} ELSE {}) \\cup
     \\* what a finished confirmed request holds is the answer to that very request (or an error / reject / abort)
@@ -262,7 +275,8 @@ Step == /\\ l <= Len(T)
         /\\ LET e == T[l] IN
             /\\ Bind(e)
             /\\ rej' = IF rej = 0 /\\ ((e.op = "request" /\\ ~ENABLED (Request(e.k, e.d, e.u) /\\ Bind(e)))
-                                    \\/ (e.op = "direct" /\\ ~ENABLED (Direct(e.d) /\\ Bind(e)))) THEN l ELSE rej
+                                    \\/ (e.op = "direct" /\\ ~ENABLED (Direct(e.d) /\\ Bind(e)))
+                                    \\/ (e.op = "abortp" /\\ ~ENABLED (AbortPending(e.k) /\\ Bind(e)))) THEN l ELSE rej
             /\\ viol' = viol \\cup {<<m, l>> : m \\in {x \\in Failing(e) : \\A v \\in viol : v[1] # x}}
         /\\ l' = l + 1 /\\ UNCHANGED tid
 Done_ == /\\ l = Len(T) + 1
@@ -367,7 +381,7 @@ def run(chk, rng, thorough):
     # every request unanswered (silence): all retries, local abort, queue must advance
     traces.append(record(dests, [(0, 2), (0, 2), (0, 3)], {n: "drop" for n in range(1, 60)}))
     for i in range(300 if thorough else 40):
-        plan = [(rng.choice([0, 0, 1, 2000, 3000, 6500]), rng.choice(dests), rng.choice("ccccud")) for _ in range(rng.randint(1, 6))]
+        plan = [(rng.choice([0, 0, 1, 2000, 3000, 6500]), rng.choice(dests), rng.choice("cccccuda")) for _ in range(rng.randint(1, 6))]
         faults = {rng.randint(1, 30): rng.choice(["drop", "dup", "delay"]) for _ in range(rng.randint(0, 8))}
         traces.append(record(dests, plan, faults, seed=rng.randrange(1 << 30), retries=rng.randint(0, 2)))
     for i, t in enumerate(traces):
@@ -431,7 +445,8 @@ def run_many_on_library_scheduler(chk, rng, n):
     chk.extra["many_on_library_scheduler"] = {"runs": n, "differing": bad}
 
 
-USHAPES = [[(0, 2, "c"), (0, 2, "d")], [(0, 2, "c"), (0, 2, "u"), (0, 2, "c")], [(0, 2, "c"), (0, 2, "c"), (0, 2, "d"), (0, 3, "d")],
+USHAPES = [[(0, 2, "c"), (0, 2, "c"), (0, 2, "a"), (0, 2, "c")], [(0, 2, "c"), (0, 2, "c"), (0, 2, "c"), (1, 2, "a"), (2, 2, "c"), (3, 3, "c")],
+           [(0, 2, "c"), (0, 2, "d")], [(0, 2, "c"), (0, 2, "u"), (0, 2, "c")], [(0, 2, "c"), (0, 2, "c"), (0, 2, "d"), (0, 3, "d")],
            [(0, 2, "u")], [(0, 2, "d")], [(0, 2, "c"), (0, 3, "u"), (1, 2, "d"), (2, 2, "c"), (3000, 2, "d")],
            [(0, 2, "u"), (0, 2, "u"), (0, 2, "c"), (0, 2, "d"), (0, 2, "u")]]
 
@@ -446,7 +461,7 @@ def run_reply_matching(chk, rng, n_random, only, rename):
         for n in range(1, 2 * len(plan) + 3):
             traces.append(record(dests, plan, {n: "delay"}))
     for i in range(n_random):
-        plan = [(rng.choice([0, 0, 1, 2, 3000]), rng.choice(dests), rng.choice("cccud")) for _ in range(rng.randint(2, 6))]
+        plan = [(rng.choice([0, 0, 1, 2, 3000]), rng.choice(dests), rng.choice("ccccuda")) for _ in range(rng.randint(2, 6))]
         faults = {rng.randint(1, 20): rng.choice(["dup", "delay"]) for _ in range(rng.randint(0, 3))}
         traces.append(record(dests, plan, faults, seed=rng.randrange(1 << 30), retries=1))
     for i, t in enumerate(traces):
